@@ -575,14 +575,42 @@ def mk_lineshape_kw(ls):
     return {"lineshape": MultipletLineShape, "lineshape_args": [ls["mult"]]}
 
 
+_KWREG = {}       # id(model) -> the lineshape_args / lineshape_kwargs containers the caller (this harness) handed over and keeps
+
+
+def _line_model(cls, m):
+    kw = mk_lineshape_kw(m.get("ls"))
+    model = cls(mk_line(m["line"]), **kw)
+    _KWREG[id(model)] = kw
+    return model
+
+
+def caller_edits_lineshape_containers(model):
+    """The caller re-uses the list / dict it passed to the constructor for something else.  True if anything was edited."""
+    kw = _KWREG.get(id(model))
+    if not kw:
+        return False
+    done = False
+    d = kw.get("lineshape_kwargs")
+    if d:
+        for key in list(d):
+            d[key] = tuple(v * 1.37 for v in d[key])
+        done = True
+    lst = kw.get("lineshape_args")
+    if lst:
+        lst[0] = [[x + 0.11 for x in lst[0][0]], [0.7, 0.3]]
+        done = True
+    return done
+
+
 def mk_plasma_model(m):
     c = m["cls"]
     if c == "ExcitationLine":
-        return ExcitationLine(mk_line(m["line"]), **mk_lineshape_kw(m.get("ls")))
+        return _line_model(ExcitationLine, m)
     if c == "RecombinationLine":
-        return RecombinationLine(mk_line(m["line"]), **mk_lineshape_kw(m.get("ls")))
+        return _line_model(RecombinationLine, m)
     if c == "ThermalCXLine":
-        return ThermalCXLine(mk_line(m["line"]), **mk_lineshape_kw(m.get("ls")))
+        return _line_model(ThermalCXLine, m)
     if c == "Bremsstrahlung":
         kw = {}
         if m.get("gaunt") is not None:
@@ -597,7 +625,7 @@ def mk_plasma_model(m):
 
 def mk_beam_model(m):
     if m["cls"] == "BeamCXLine":
-        return BeamCXLine(mk_line(m["line"]), **mk_lineshape_kw(m.get("ls")))
+        return _line_model(BeamCXLine, m)
     return BeamEmissionLine(mk_line(m["line"]))
 
 
@@ -882,14 +910,14 @@ class SceneMachine(Machine):
 
     def _kinds(self, spec):
         k = ["p.bfield", "p.electron", "p.comp.add", "p.comp.set", "p.comp.set.bad", "p.comp.clear", "p.geometry", "p.geomtransform", "p.integrator",
-             "p.models.set", "p.models.add", "p.models.clear", "p.models.readd", "p.models.set.bad", "p.models.permute", "p.model.attr", "p.reassign", "p.caller.mutate", "p.unset",
+             "p.models.set", "p.models.add", "p.models.clear", "p.models.readd", "p.models.set.bad", "p.models.permute", "p.model.attr", "p.model.kw.mutate", "p.reassign", "p.caller.mutate", "p.unset",
              "p.atomic_data", "p.transform", "p.parent",
              "frame.transform", "p.recreate", "p.reject"]
         if spec["beams"] or spec.get("laser"):
             k += ["hook.add", "hook.add"]
         if spec["beams"]:
             k += ["b.set", "b.set", "b.element", "b.atomic_data", "b.plasma", "b.attenuator", "b.att.reassign", "b.att.step", "b.att.clamp_sigma",
-                  "b.models.set", "b.models.add", "b.models.clear", "b.models.readd", "b.models.set.bad", "b.models.permute", "b.reassign", "b.caller.mutate", "b.model.line", "b.integrator", "b.transform", "b.parent",
+                  "b.models.set", "b.models.add", "b.models.clear", "b.models.readd", "b.models.set.bad", "b.models.permute", "b.reassign", "b.caller.mutate", "b.model.line", "b.model.kw.mutate", "b.integrator", "b.transform", "b.parent",
                   "b.recreate", "b.reject", "fa.make", "fa.step", "fa.step", "fa.clamp"]
         if spec.get("laser"):
             k += ["l.profile.set", "l.profile.set", "l.profile.polarize", "l.profile", "l.spectrum", "l.spectrum.set", "l.plasma",
@@ -950,6 +978,8 @@ class SceneMachine(Machine):
                 op["attr"], op["value"] = "gaunt", rng.choice([None, None, round(rng.uniform(0.7, 1.6), 3)])
             else:
                 op["attr"], op["value"] = "quad", [rng.choice([1e-5, 1e-3]), rng.choice([50, 12]), rng.choice([1, 3])]
+        elif kind == "p.model.kw.mutate":
+            op["which"] = rng.randrange(4)
         elif kind == "p.models.set.bad":
             op["models"] = [gen_plasma_model(rng, comp) for _ in range(rng.randint(1, 3))]
             op["junk_at"] = rng.randrange(4)
@@ -1075,6 +1105,8 @@ class SceneMachine(Machine):
                 op["junk_at"] = rng.randrange(4)
             elif kind == "b.reassign":
                 op["what"] = rng.choice(["atomic_data", "plasma", "integrator", "element"])
+            elif kind == "b.model.kw.mutate":
+                op["which"] = rng.randrange(4)
             elif kind == "b.model.line":
                 op["which"] = rng.randrange(4)
                 op["bel"] = rng.choice(["D", "H"])
@@ -1556,6 +1588,13 @@ class SceneMachine(Machine):
                     q = op["value"]
                     model.integrator = GaussianQuadrature(relative_tolerance=q[0], max_order=q[1], min_order=q[2])
                 env.probe("model_attribute_changed_in_place")
+            elif k == "p.model.kw.mutate":
+                cur = list(p.models)
+                if not cur or not caller_edits_lineshape_containers(cur[op["which"] % len(cur)]):
+                    return "noop"
+                p.b_field = p.b_field                      # any notification: the models drop and rebuild their line shapes
+                env.probe("caller_lineshape_containers_edited")
+                return "raised"
             elif k == "p.models.permute":
                 cur = list(p.models)
                 if not cur:
@@ -1689,6 +1728,13 @@ class SceneMachine(Machine):
             w = op["what"]
             setattr(b, w, getattr(b, w))
             env.probe("same_object_reassigned")
+            return "raised"
+        elif k == "b.model.kw.mutate":
+            cur = list(b.models)
+            if not cur or not caller_edits_lineshape_containers(cur[op["which"] % len(cur)]):
+                return "noop"
+            b.sigma = b.sigma
+            env.probe("caller_lineshape_containers_edited")
             return "raised"
         elif k == "b.models.permute":
             cur = list(b.models)
